@@ -116,6 +116,11 @@ pub enum CallSpec {
         settlement: bool,
         roll: RollSpec,
         counts: Vec<i32>,
+        /// non-empty: the calendar is wrapped in a USER implementation of the public
+        /// `DateRoll` trait that declares these datetimes (seconds since epoch) working days
+        /// by overriding the provided `is_bus_day` (make-up working days)
+        #[serde(default)]
+        makeup: Vec<i64>,
     },
     Csolve {
         spec: SplineSpec,
@@ -755,6 +760,89 @@ fn build_cal(c: &CalChoice) -> Result<CalType, Fail> {
     })
 }
 
+/// A user's calendar: the public trait implemented outside the library. The three required
+/// methods delegate; the provided `is_bus_day` is overridden to add make-up working days.
+struct UserCal {
+    base: CalType,
+    working: Vec<chrono::NaiveDateTime>,
+}
+
+impl DateRoll for UserCal {
+    fn is_weekday(&self, date: &chrono::NaiveDateTime) -> bool {
+        self.base.is_weekday(date)
+    }
+    fn is_holiday(&self, date: &chrono::NaiveDateTime) -> bool {
+        self.base.is_holiday(date)
+    }
+    fn is_settlement(&self, date: &chrono::NaiveDateTime) -> bool {
+        self.base.is_settlement(date)
+    }
+    fn is_bus_day(&self, date: &chrono::NaiveDateTime) -> bool {
+        self.working.contains(date) || (self.is_weekday(date) && !self.is_holiday(date))
+    }
+}
+
+#[allow(clippy::too_many_arguments)]
+fn sweep_dates<C: DateRoll>(
+    cal: &C,
+    d: chrono::NaiveDateTime,
+    m: Modifier,
+    r: RollDay,
+    settlement: bool,
+    func: &DateFn,
+    counts: &[i32],
+    roll: &RollSpec,
+    obs: &mut Obs,
+    panic_to: &dyn Fn(&str, PanicInfo, String) -> Fail,
+) -> Result<(), Fail> {
+    for c in counts {
+        let (target, res): (&str, Result<(), PanicInfo>) = match func {
+            DateFn::AddDays => (
+                "DateRoll::add_days",
+                guard(|| {
+                    let _ = cal.add_days(&d, *c as i8, &m, settlement);
+                }),
+            ),
+            DateFn::AddBusDays => (
+                "DateRoll::add_bus_days",
+                guard(|| {
+                    let _ = cal.add_bus_days(&d, *c as i8, settlement);
+                }),
+            ),
+            DateFn::Lag => (
+                "DateRoll::lag",
+                guard(|| {
+                    let _ = cal.lag(&d, *c as i8, settlement);
+                }),
+            ),
+            DateFn::AddMonths => (
+                "DateRoll::add_months",
+                guard(|| {
+                    let _ = cal.add_months(&d, *c, &m, &r, settlement);
+                }),
+            ),
+            DateFn::Roll => (
+                "DateRoll::roll",
+                guard(|| {
+                    let _ = cal.roll(&d, &m, settlement);
+                }),
+            ),
+        };
+        if let Err(p) = res {
+            return Err(panic_to(
+                target,
+                p,
+                format!(
+                    "date {}, count {}, modifier {:?}, settlement {}, roll {:?}",
+                    d, c, m, settlement, roll
+                ),
+            ));
+        }
+        obs.count(&format!("call.{}", target));
+    }
+    Ok(())
+}
+
 fn modifier_of(m: u8) -> Modifier {
     match m % 5 {
         0 => Modifier::Act,
@@ -808,6 +896,14 @@ fn exec_call(c: &CallSpec, obs: &mut Obs) -> Result<(), Fail> {
             dual2,
         } => {
             let t = "Dual2::try_new";
+            {
+                let mut u = vars.clone();
+                u.sort();
+                u.dedup();
+                if u.len() < vars.len() && !dual2.is_empty() {
+                    obs.count("reach.second_order_constructor_with_repeated_names_and_explicit_matrix");
+                }
+            }
             match guard(|| Dual2::try_new(v.get(), vars.clone(), fl(dual), fl(dual2))) {
                 Err(p) => {
                     return Err(panic_to(
@@ -955,6 +1051,7 @@ fn exec_call(c: &CallSpec, obs: &mut Obs) -> Result<(), Fail> {
             settlement,
             roll,
             counts,
+            makeup,
         } => {
             // a calendar name the constructor refuses gives no date arithmetic to sweep
             // (whether the refusal is right is C06's business, not this property's)
@@ -974,50 +1071,21 @@ fn exec_call(c: &CallSpec, obs: &mut Obs) -> Result<(), Fail> {
                 RollSpec::SoM => RollDay::SoM {},
                 RollSpec::Imm => RollDay::IMM {},
             };
-            for c in counts {
-                let (target, res): (&str, Result<(), PanicInfo>) = match func {
-                    DateFn::AddDays => (
-                        "DateRoll::add_days",
-                        guard(|| {
-                            let _ = cal.add_days(&d, *c as i8, &m, *settlement);
-                        }),
-                    ),
-                    DateFn::AddBusDays => (
-                        "DateRoll::add_bus_days",
-                        guard(|| {
-                            let _ = cal.add_bus_days(&d, *c as i8, *settlement);
-                        }),
-                    ),
-                    DateFn::Lag => (
-                        "DateRoll::lag",
-                        guard(|| {
-                            let _ = cal.lag(&d, *c as i8, *settlement);
-                        }),
-                    ),
-                    DateFn::AddMonths => (
-                        "DateRoll::add_months",
-                        guard(|| {
-                            let _ = cal.add_months(&d, *c, &m, &r, *settlement);
-                        }),
-                    ),
-                    DateFn::Roll => (
-                        "DateRoll::roll",
-                        guard(|| {
-                            let _ = cal.roll(&d, &m, *settlement);
-                        }),
-                    ),
+            if d.and_utc().timestamp() < 0 || d.and_utc().timestamp() > 7_289_654_400 {
+                obs.count("reach.month_addition_from_outside_1970_2200");
+            }
+            if makeup.is_empty() {
+                sweep_dates(&cal, d, m, r, *settlement, func, counts, roll, obs, &panic_to)?;
+            } else {
+                let user = UserCal {
+                    base: cal,
+                    working: makeup.iter().map(|t| ts_to_ndt(*t)).collect(),
                 };
-                if let Err(p) = res {
-                    return Err(panic_to(
-                        target,
-                        p,
-                        format!(
-                            "date {}, count {}, modifier {:?}, settlement {}, roll {:?}",
-                            d, c, m, settlement, roll
-                        ),
-                    ));
+                if user.working.contains(&d) && !(user.is_weekday(&d) && !user.is_holiday(&d)) {
+                    obs.count("reach.user_calendar_started_on_a_make_up_working_day");
                 }
-                obs.count(&format!("call.{}", target));
+                obs.count("reach.user_implementation_of_the_calendar_trait");
+                sweep_dates(&user, d, m, r, *settlement, func, counts, roll, obs, &panic_to)?;
             }
         }
         CallSpec::CsolveSeq {
@@ -1261,6 +1329,7 @@ fn emit_doc_faults(seed: u64, tier: Tier, unit: u64, sink: &mut dyn FnMut(Plan) 
         jsonf::truncations(&text, &mut go);
         if let Ok(tree) = jsonf::parse(&text) {
             jsonf::structured_faults(&tree, &mut go);
+            jsonf::ndarray_resizes(&tree, &mut go);
             // coordinated multi-field faults: subsets of fields made degenerate together -
             // all subsets when there are at most 10 candidate fields, a seeded sample otherwise
             let nodes = jsonf::degenerate_nodes(&tree);
@@ -1424,6 +1493,18 @@ fn emit_calls(seed: u64, tier: Tier, unit: u64, sink: &mut dyn FnMut(Plan) -> bo
                 _ => DateFn::Roll,
             };
             let counts = if func == DateFn::Roll { vec![0] } else { all_i8() };
+            // a user's own calendar type with make-up working days around (and on) the date
+            let makeup: Vec<i64> = if r.chance(0.15) {
+                let mut v: Vec<i64> = (0..r.usize_in(1, 4))
+                    .map(|_| (date_day + r.i64_in(-10, 10)).max(0) * 86_400)
+                    .collect();
+                if r.chance(0.6) {
+                    v.push(date);
+                }
+                v
+            } else {
+                vec![]
+            };
             for modifier in 0..5u8 {
                 if func != DateFn::AddDays && func != DateFn::Roll && modifier > 0 {
                     break;
@@ -1437,6 +1518,7 @@ fn emit_calls(seed: u64, tier: Tier, unit: u64, sink: &mut dyn FnMut(Plan) -> bo
                         settlement,
                         roll: RollSpec::Unspecified,
                         counts: counts.clone(),
+                        makeup: makeup.clone(),
                     })) {
                         return;
                     }
@@ -1445,12 +1527,30 @@ fn emit_calls(seed: u64, tier: Tier, unit: u64, sink: &mut dyn FnMut(Plan) -> bo
         }
         4 | 5 => {
             // month arithmetic: offsets landing in 1970..2200, every roll kind and day 1..31
-            let day = r.i64_in(0, ymd_day(2200, 12, 31));
-            let cal = gen_cal_choice(r, day);
+            // the START is any datetime (only the landing month is confined to 1970..2200)
+            let day = match r.below(20) {
+                0 => r.i64_in(ymd_day(-9999, 1, 1), ymd_day(0, 12, 31)),
+                1 => r.i64_in(ymd_day(1, 1, 1), ymd_day(1969, 12, 31)),
+                2 => r.i64_in(ymd_day(2201, 1, 1), ymd_day(9999, 12, 31)),
+                3 => *r.pick(&[
+                    ymd_day(-262_000, 3, 15),
+                    ymd_day(262_000, 3, 15),
+                    ymd_day(-1, 12, 31),
+                    ymd_day(0, 1, 1),
+                    ymd_day(0, 2, 29),
+                    ymd_day(-4, 2, 29),
+                    ymd_day(-43, 3, 15),
+                    ymd_day(10_000, 1, 31),
+                ]),
+                _ => r.i64_in(0, ymd_day(2200, 12, 31)),
+            };
+            let cal = gen_cal_choice(r, day.clamp(0, ymd_day(2200, 12, 31)));
             let date = day * 86_400;
             let nd = ts_to_ndt(date);
-            let year = nd.format("%Y").to_string().parse::<i32>().unwrap();
-            let month = nd.format("%m").to_string().parse::<i32>().unwrap();
+            let (year, month) = {
+                use chrono::Datelike;
+                (nd.year(), nd.month() as i32)
+            };
             let total = year * 12 + (month - 1);
             let lo = 1970 * 12 - total;
             let hi = 2200 * 12 + 11 - total;
@@ -1488,6 +1588,7 @@ fn emit_calls(seed: u64, tier: Tier, unit: u64, sink: &mut dyn FnMut(Plan) -> bo
                     settlement,
                     roll,
                     counts: counts.clone(),
+                    makeup: vec![],
                 })) {
                     return;
                 }
@@ -1498,14 +1599,21 @@ fn emit_calls(seed: u64, tier: Tier, unit: u64, sink: &mut dyn FnMut(Plan) -> bo
             let pool = ["x", "y", "z", "x", ""];
             for nv in 0..=4usize {
                 for nd in 0..=5usize {
-                    let vars: Vec<String> = (0..nv).map(|i| pool[(i + unit as usize) % 5].to_string()).collect();
+                    let vars: Vec<String> =
+                        (0..nv).map(|i| pool[(i + (unit / 10) as usize) % 5].to_string()).collect();
+                    let uniq = {
+                        let mut u = vars.clone();
+                        u.sort();
+                        u.dedup();
+                        u.len()
+                    };
                     let dual: Vec<Fx> = (0..nd).map(|_| Fx::new(short_values(r))).collect();
                     sink(Plan::Call(CallSpec::DualNew {
                         v: Fx::new(short_values(r)),
                         vars: vars.clone(),
                         dual: dual.clone(),
                     }));
-                    for nd2 in [0usize, 1, nv * nv, nv * nv + 1, (nv * nv).saturating_sub(1), 2 * nv] {
+                    for nd2 in [0usize, 1, nv * nv, nv * nv + 1, (nv * nv).saturating_sub(1), 2 * nv, uniq * uniq, nv * uniq] {
                         sink(Plan::Call(CallSpec::Dual2New {
                             v: Fx::new(short_values(r)),
                             vars: vars.clone(),
@@ -1903,7 +2011,36 @@ pub fn shrink(plan: &Plan) -> Vec<Plan> {
                     settlement,
                     roll,
                     counts,
+                    makeup,
                 } => {
+                    if !makeup.is_empty() {
+                        cs.push(CallSpec::DateSweep {
+                            cal: cal.clone(),
+                            date: *date,
+                            func: func.clone(),
+                            modifier: *modifier,
+                            settlement: *settlement,
+                            roll: roll.clone(),
+                            counts: counts.clone(),
+                            makeup: vec![],
+                        });
+                        if makeup.len() > 1 {
+                            for i in 0..makeup.len() {
+                                let mut mk = makeup.clone();
+                                mk.remove(i);
+                                cs.push(CallSpec::DateSweep {
+                                    cal: cal.clone(),
+                                    date: *date,
+                                    func: func.clone(),
+                                    modifier: *modifier,
+                                    settlement: *settlement,
+                                    roll: roll.clone(),
+                                    counts: counts.clone(),
+                                    makeup: mk,
+                                });
+                            }
+                        }
+                    }
                     if counts.len() > 1 {
                         let h = counts.len() / 2;
                         for part in [&counts[..h], &counts[h..]] {
@@ -1915,6 +2052,7 @@ pub fn shrink(plan: &Plan) -> Vec<Plan> {
                                 settlement: *settlement,
                                 roll: roll.clone(),
                                 counts: part.to_vec(),
+                                makeup: makeup.clone(),
                             });
                         }
                     }
@@ -1927,6 +2065,7 @@ pub fn shrink(plan: &Plan) -> Vec<Plan> {
                             settlement: *settlement,
                             roll: roll.clone(),
                             counts: counts.clone(),
+                            makeup: makeup.clone(),
                         });
                     }
                     if *settlement {
@@ -1938,6 +2077,7 @@ pub fn shrink(plan: &Plan) -> Vec<Plan> {
                             settlement: false,
                             roll: roll.clone(),
                             counts: counts.clone(),
+                            makeup: makeup.clone(),
                         });
                     }
                     if *modifier != 0 {
@@ -1949,6 +2089,7 @@ pub fn shrink(plan: &Plan) -> Vec<Plan> {
                             settlement: *settlement,
                             roll: roll.clone(),
                             counts: counts.clone(),
+                            makeup: makeup.clone(),
                         });
                     }
                 }
